@@ -403,4 +403,29 @@ theorem dayRaw_lt_iff (y m d y' m' d' : Int) (h : Valid y m d) (h' : Valid y' m'
       · have := dateRaw_strictMono _ _ p' (by omega : dayRaw y' m' d' < dayRaw y m d)
         rw [r, r'] at this; omega
 
+/-! ## `fractionalyear`: the fraction lies in [0, 1) -/
+
+theorem valid_jan1 (y : Int) (hy : 1 ≤ y) : Valid y 1 1 := by
+  refine ⟨hy, by omega, by omega, by omega, ?_, by omega⟩
+  rw [monthLength_cases]; simp
+theorem fracYear_range (y m d : Int) (h : Valid y m d) (hy : y ≤ 199999) :
+    ∃ n den, fracYear y m d = some (y, n, den) ∧ 0 ≤ n ∧ n < den := by
+  have hd31 := valid_d31 y m d h
+  have v0 := valid_jan1 y h.1
+  have v1 := valid_jan1 (y + 1) (by have := h.1; omega)
+  have hc := dayChecked_of_valid y m d h (by omega)
+  obtain ⟨hy1, hm1, hm2, hd1, hd2, hx⟩ := h
+  have g0 : dayGuard y 1 1 = true := by unfold dayGuard; simp only [decide_eq_true_eq]; omega
+  have g1 : dayGuard (y + 1) 1 1 = true := by unfold dayGuard; simp only [decide_eq_true_eq]; omega
+  have hv : Valid y m d := ⟨hy1, hm1, hm2, hd1, hd2, hx⟩
+  have lo : dayRaw y 1 1 ≤ dayRaw y m d := by
+    by_cases e : dayRaw y m d < dayRaw y 1 1
+    · have := (dayRaw_lt_iff y m d y 1 1 hv v0).1 e; unfold dateKey at this; simp only at this; omega
+    · omega
+  have hi : dayRaw y m d < dayRaw (y + 1) 1 1 := by
+    apply (dayRaw_lt_iff y m d (y + 1) 1 1 hv v1).2; unfold dateKey; simp only; omega
+  refine ⟨dayRaw y m d - dayRaw y 1 1, dayRaw (y + 1) 1 1 - dayRaw y 1 1, ?_, by omega, by omega⟩
+  unfold fracYear day
+  simp only [hc, g0, g1, if_true]
+
 end GeoVerif.Calendar
